@@ -11,7 +11,7 @@ Definition key := N.
 
 Inductive obj :=
 (* types.FunctionType: __name__, __module__, __code__, __defaults__, __kwdefaults__, __doc__,
-   __annotations__, __dict__, the contents of the cells of __closure__, __code__.co_freevars *)
+   __annotations__, __dict__, the cells of __closure__, __code__.co_freevars *)
 | OFunc (name : key) (md : option key) (code : addr) (defaults : addr) (kwdefaults : addr) (doc : addr)
         (annotations : addr) (fdict : addr) (closure : list addr) (freevars : list key)
 (* a class: __name__, __module__, the raw entries of its own __dict__, __bases__,
@@ -23,6 +23,7 @@ Inductive obj :=
    hasattr(type(o), "__slots__"), the slot attributes that are set *)
 | OInst (cls : addr) (idict : option addr) (islots : option (list key)) (slotvals : list (key * addr))
 | OMethod (func self : addr)                          (* types.MethodType *)
+| OCell (contents : addr)                             (* a closure cell (types.CellType), never empty *)
 | OModule (mdict : addr)                              (* types.ModuleType *)
 | OStatic (func : addr)                               (* staticmethod object (in a class dict) *)
 | OClassM (func : addr)                               (* classmethod object (in a class dict) *)
@@ -95,7 +96,7 @@ Definition sortN (l : list N) : list N := fold_right insertN [] l.
 Inductive ty :=
 | TyFunc | TyMethod | TyClass | TyDict | TyModule
 | TyInst (c : addr)
-| TyStatic | TyClassM
+| TyStatic | TyClassM | TyCell
 | TyPrim (t : N).
 
 Definition tyof (o : obj) : ty :=
@@ -105,6 +106,7 @@ Definition tyof (o : obj) : ty :=
   | ODict _ => TyDict
   | OInst c _ _ _ => TyInst c
   | OMethod _ _ => TyMethod
+  | OCell _ => TyCell
   | OModule _ => TyModule
   | OStatic _ => TyStatic
   | OClassM _ => TyClassM
@@ -114,7 +116,7 @@ Definition tyof (o : obj) : ty :=
 Definition ty_eqb (a b : ty) : bool :=
   match a, b with
   | TyFunc, TyFunc | TyMethod, TyMethod | TyClass, TyClass | TyDict, TyDict | TyModule, TyModule
-  | TyStatic, TyStatic | TyClassM, TyClassM => true
+  | TyStatic, TyStatic | TyClassM, TyClassM | TyCell, TyCell => true
   | TyInst c, TyInst d => (c =? d)%N
   | TyPrim t, TyPrim u => (t =? u)%N
   | _, _ => false
